@@ -681,9 +681,19 @@ func snap(sb *strings.Builder, v reflect.Value, depth int) {
 		sb.WriteByte('>')
 	case reflect.Map:
 		keys := v.MapKeys()
-		sort.Slice(keys, func(i, j int) bool { return fmt.Sprint(keys[i]) < fmt.Sprint(keys[j]) })
-		sb.WriteByte('{')
+		keyText := func(k reflect.Value) string {
+			if k.Kind() == reflect.Interface && !k.IsNil() {
+				return fmt.Sprint(k) + "/" + k.Elem().Type().String()
+			}
+			return fmt.Sprint(k)
+		}
+		sort.SliceStable(keys, func(i, j int) bool { return keyText(keys[i]) < keyText(keys[j]) })
+		// (the map's own type and the dynamic type of every key: a map replaced by one of another kind is a change)
+		fmt.Fprintf(sb, "%s{", v.Type())
 		for _, k := range keys {
+			if k.Kind() == reflect.Interface && !k.IsNil() {
+				fmt.Fprintf(sb, "%s:", k.Elem().Type())
+			}
 			fmt.Fprintf(sb, "%v=", k)
 			snap(sb, v.MapIndex(k), depth+1)
 			sb.WriteByte(',')
